@@ -226,6 +226,7 @@ def kani_crate(cfg):
                 gen_kani.gen_si(g)
                 gen_kani.gen_conv(g)
                 gen_kani.gen_m0(g)
+                gen_kani.gen_one(g)
         except gen_verus.LostAnchor as e:
             raise Undecided(f'lost anchor while generating kani crate {cfg}: {e}')
         text = g.render()
